@@ -236,7 +236,10 @@ NDAMP = [0, 1, 3]
 
 
 def tfs(dt):
-    return sorted(set([dt * 1, dt * 2, dt * 3.5, 1.0, 0.95]))
+    # commensurate, not commensurate, and a hair (0.05 % of a step) beyond /
+    # short of a whole number of steps
+    return sorted(set([dt * 1, dt * 2, dt * 3.5, 1.0, 0.95,
+                       dt * 3 + dt * 5e-4, dt * 3 - dt * 5e-4]))
 
 
 def fixed_configs(thorough, seed):
